@@ -184,4 +184,48 @@ mutual
           exact ⟨trivial, (g1.bad' h2 (by omega)).same f2, f1⟩
 end
 
+/-- `cif_value_clone` into a fresh target, from any consistent state -/
+theorem clone_spec (k : Nat) (sh : Shape) (s : St) (L : List Nat) (h : Inv s L) :
+    (∃ o, (clone k sh s).1 = some o ∧ Good k (1 + allocs sh) s (clone k sh s).2 ∧ Inv (clone k sh s).2 (o.ids ++ L)) ∨
+    ((clone k sh s).1 = none ∧ Bad k (1 + allocs sh) s (clone k sh s).2 ∧ Inv (clone k sh s).2 L) := by
+  simp only [clone]
+  rcases alloc_cases k s with ⟨hk, ha⟩ | ⟨hk, ha⟩ <;> simp only [ha]
+  · right
+    exact ⟨trivial, (Bad.alloc hk).mono (by omega), h.fail⟩
+  · rcases cloneInto_spec k (s.count + 1) sh _ L h.alloc with ⟨o, h1, h2, h3⟩ | ⟨h1, h2, h3⟩
+    · left
+      exact ⟨o, h1, (Good.alloc hk).trans h2, h3⟩
+    · right
+      exact ⟨h1, (Good.alloc hk).bad h2, h3⟩
+
+/-- number of requests of `insertElement` (fault-free) -/
+def insertAllocs (full : Bool) (sh : Shape) : Nat := 1 + allocs sh + (if full then 1 else 0)
+
+/-- `cif_value_insert_element_at`, from any consistent state -/
+theorem insertElement_spec (k : Nat) (full : Bool) (sh : Shape) (s : St) (L : List Nat) (h : Inv s L) :
+    (∃ o a, (insertElement k full sh s).1 = OK ∧ (insertElement k full sh s).2.1 = some (o, a) ∧ a.isSome = full ∧
+        Good k (insertAllocs full sh) s (insertElement k full sh s).2.2 ∧
+        Inv (insertElement k full sh s).2.2 (o.ids ++ a.toList ++ L)) ∨
+    ((insertElement k full sh s).1 = MEMORY_ERROR ∧ (insertElement k full sh s).2.1 = none ∧
+        Bad k (insertAllocs full sh) s (insertElement k full sh s).2.2 ∧ Inv (insertElement k full sh s).2.2 L) := by
+  simp only [insertElement, insertAllocs]
+  have hh := clone_spec k sh s L h
+  generalize clone k sh s = r at hh ⊢
+  obtain ⟨ro, rs⟩ := r
+  rcases hh with ⟨o, h1, h2, h3⟩ | ⟨h1, h2, h3⟩ <;> simp only at h1 h2 h3 <;> subst h1 <;> simp only
+  · cases full with
+    | false =>
+      left
+      exact ⟨o, none, rfl, rfl, rfl, by simpa using h2, by simpa using h3⟩
+    | true =>
+      simp only [if_true]
+      rcases alloc_cases k rs with ⟨hk, ha⟩ | ⟨hk, ha⟩ <;> simp only [ha]
+      · right
+        have ⟨f1, f2⟩ := freeOwned_spec o _ L h3.fail
+        exact ⟨trivial, trivial, (h2.bad (Bad.alloc hk)).same f2, f1⟩
+      · left
+        exact ⟨o, some (rs.count + 1), by trivial, by trivial, by trivial, h2.trans (Good.alloc hk), h3.alloc.perm (by perm_ac)⟩
+  · right
+    exact ⟨trivial, trivial, h2.mono (by omega), h3⟩
+
 end CifModel.Lemmas.Ladder
